@@ -12,1136 +12,1091 @@ Definition show_fres (r : fres) : string :=
   end.
 Definition check (rs : list rune) : string := digest (show_fres (format_res rs)).
 Definition full (rs : list rune) : string := show_fres (format_res rs).
-Eval vm_compute in ("<<<M7>>>" ++ check (runes_of_ascii "options// @lengthOf(
-{
-    rootA=	""x y"";
-trueish// a // b
-=
-    0 Header =""1"" }
-    root packet packetx{ u32 uint8x ,
-u A ,// " ++ [128512]%N ++ runes_of_ascii " emoji
-i16 body @lengthOf(A )
-,
-@lengthOf(
-    u8x
-    // 50% %s
+Eval vm_compute in ("<<<M100>>>" ++ check (runes_of_ascii "options
+/// triple
+//
+{matchKey	= true ;	packetx =uint32; metadata =int64
+    ;Packet = float64 _x= // @lengthOf(
+""" ++ [233]%N ++ runes_of_ascii "t" ++ [233]%N ++ runes_of_ascii """}root packet asx { @rightPad (
+'\x00')
+@calculatedFrom( """" //
+)  @tag( 4294967296)msg_type { repeat
+zchar[ 65535 ]charz `{ , }`  , char
+roots ,T { rootA
+len ,
+    } ,repeat u128  `u8 x,`
+    , }
+    ,  }
+    root packet	MetaDataX{ // c
+char[ 4294967296
+]
+    Z9_// `tick` ""quote"" 'q'
+,lengthOf// c
+rootA `{ , }`,@rightPad ( '0'
+    ) zchar[	00
+]i8i8 ,	char[
+1
+]a1	,
+    // c
+    float32 crc  `
+` , Z9_
+    { f32a {
+    float32//
+len, f32a{ char[
+0 ]// " ++ [27880; 37322]%N ++ runes_of_ascii "
+pack@calculatedFrom( ""it's"" )
+, T @lengthOf(// 50% %s
+f32a )
+// c
+// `tick` ""quote"" 'q'
+, i64 lengthOf// " ++ [128512]%N ++ runes_of_ascii " emoji
+@calculatedFrom(  ""x y"") , zchar[ 4294967296
+]	As @calculatedFrom(  ""x y""
     )
-    u8x @calculatedFrom( /// triple
-""abc"" ) ,  @tag(
-    42
-)match	float as a1	{ [ """" ] : pack ,""""
-: leftPad ,7
-:f32a , 3
-:
-    i8i8
-, 255
-: string_	, } // c
-, metadata``	, /// triple
-uint8 rootA// packet A { u8 x, }
-, }// trailing space 
-packet zchar { // c
-@calculatedFrom( ""it's"") uint64
-//	t
-// packet A { u8 x, }
-int
-, char
-int ,i16 float // @lengthOf(
-, asx	, // c
-char[	7] Packet
-    @lengthOf( body)
-    `" ++ [28040; 24687; 31867; 22411]%N ++ runes_of_ascii "`
-, } packet stringy
-// " ++ [128512]%N ++ runes_of_ascii " emoji
-//	t
-{
-//x
-//	t
-@calculatedFrom(""abc"" ) zchar[
-65535 /// triple
-] Packet ,// @lengthOf(
-@tag(42 // " ++ [27880; 37322]%N ++ runes_of_ascii "
-)
-    // `tick` ""quote"" 'q'
-    @leftPad()
-    char[]
-falsey ,i8i8
-x `" ++ [28040; 24687; 31867; 22411]%N ++ runes_of_ascii "`,@tag(
-255 ) u128
-    {
-    f32 //
-uint8x
-`u8 x,`, o @calculatedFrom( ""a\""b"")
-// 50% %s
-//x
-, char[] charz `
-` , }, @calculatedFrom(
-""1"" )
-    repeat i8i8 { zchar[0 ] int , } , @tag( 007 )repeat i64
-Logon
-`
-` , repeat
-    char[ 0 ] matchKey `crlf
-line` ,@calculatedFrom(  ""a\\"") @tag(
-    42
-)	@leftPad // 50% %s
-(
-'0'  ) match o as
-x_y_z
-    // " ++ [27880; 37322]%N ++ runes_of_ascii "
-    { [ // `tick` ""quote"" 'q'
-""" ++ [128512]%N ++ runes_of_ascii """ , ""x y"" , 0123456789 , ""CRC32""// c
-,""it's"",
-    //
-    007
-,
-3 ,
-007 // " ++ [27880; 37322]%N ++ runes_of_ascii "
-]
-:Packet [
-    255 ,  ""x y""	]: x_y_z ,} ,}
-//	t
-")).
-Eval vm_compute in ("<<<M383>>>" ++ check (runes_of_ascii "options {
-	StringPrefixLenType = u16;
-	ArrayPrefixLenType = u16;
-}
-
-packet SampleBinary {
-	uint16 MsgType `" ++ [28040; 24687; 31867; 22411]%N ++ runes_of_ascii "`,
-	u16 BodyLenght @lengthOf(Body) `" ++ [28040; 24687; 20307; 38271; 24230]%N ++ runes_of_ascii "`,
-	match MsgType as Body {
-		1 : Logon,
-		2 : Logout,
-		3 : Heartbeat,
-		4 : RiskControlRequest,
-		5 : RiskControlResponse,
-	},
-	@calculatedFrom(""CRC32"")
-	u32 Ckecksum `" ++ [26657; 39564; 21644]%N ++ runes_of_ascii "`,
-}
-
-packet Logon {
-	@leftPad('0')
-	char[10] UserName `" ++ [29992; 25143; 21517]%N ++ runes_of_ascii "`,
-	string Password `" ++ [23494; 30721]%N ++ runes_of_ascii "`,
-	uint64 ClientId `" ++ [23458; 25143; 31471]%N ++ runes_of_ascii "ID`,
-	u16 HeartbeatInterval `" ++ [24515; 36339; 38388; 38548]%N ++ runes_of_ascii "`,
-}
-
-packet Logout {
-	@rightPad('0')
-	char[10] UserName `" ++ [29992; 25143; 21517]%N ++ runes_of_ascii "`,
-	uint64 ClientId `" ++ [23458; 25143; 31471]%N ++ runes_of_ascii "ID`,
-}
-
-packet Heartbeat {
-}
-
-packet RiskControlRequest {
-	string UniqueOrderId `" ++ [21807; 19968; 35746; 21333; 21495]%N ++ runes_of_ascii "`,
-	char[16] ClOrdID `" ++ [23458; 25143; 35746; 21333; 21495]%N ++ runes_of_ascii "`,
-	char[3] MarketID `" ++ [24066; 22330]%N ++ runes_of_ascii "id`,
-	char[12] SecurityID `" ++ [35777; 21048; 20195; 30721]%N ++ runes_of_ascii "`,
-	char Side `" ++ [20080; 21334; 26041; 21521]%N ++ runes_of_ascii "`,
-	char OrderType `" ++ [35746; 21333; 31867; 22411]%N ++ runes_of_ascii "`,
-	u64 Price `" ++ [20215; 26684]%N ++ runes_of_ascii "`,
-	u32 Qty `" ++ [25968; 37327]%N ++ runes_of_ascii "`,
-	repeat string ExtraInfo `" ++ [38468; 21152; 20449; 24687]%N ++ runes_of_ascii "`,
-	repeat SubOrder {
-		char[16] ClOrdID `" ++ [23376; 35746; 21333; 21495]%N ++ runes_of_ascii "`,
-		u64 Price `" ++ [23376; 35746; 21333; 20215; 26684]%N ++ runes_of_ascii "`,
-		u32 Qty `" ++ [23376; 35746; 21333; 25968; 37327]%N ++ runes_of_ascii "`,
-	},
-}
-
-packet RiskControlResponse {
-	string UniqueOrderId `" ++ [21807; 19968; 35746; 21333; 21495]%N ++ runes_of_ascii "`,
-	i32 Status `" ++ [29366; 24577]%N ++ runes_of_ascii "`,
-	string Msg `" ++ [32467; 26524; 20449; 24687]%N ++ runes_of_ascii "`,
-	repeat Detail,
-}
-
-packet Detail {
-	string RuleName `" ++ [35268; 21017; 21517; 31216]%N ++ runes_of_ascii "`,
-	u16 Code `" ++ [21407; 22240; 20195; 30721]%N ++ runes_of_ascii "`,
-}")).
-Eval vm_compute in ("<<<M1351>>>" ++ check (runes_of_ascii "  options
-
-    {
-LittleEndian
-=
-false;
-FixedStringPadChar=  ' ' ;	} packet
-
-Fill	{
-	InFlags6
-    {
-
-repeat
-    u64 
-count
-	,}
-, char[8
-]  price
-,
-	repeat
-    char[
-    2] 
-lastPx ,
-	char[] count,}packet
-Quote
-    {  char[]
-Qty
-    ,
-
-int32 sym ,zchar[
-	9
-]
-
-    Flags ,
-    int8
-	tag7 ,
-char[7
-]
-
-    count,
-} 
-packet
-Cancel  {
-
-string Acct
-
-    ,  @rightPad
-('\x00'
-	)char[
-
-2
-    ]  Note ,
-
-zchar[
-
-5
-
-]
-Side2,	} 
-packet  Trade
-
-    { repeat 
-Quote
-    ,
-    Fill 
-,  repeat
-    i64
-    Side2
-    ,	uint16 
-Tail 
-,
-zchar[7
-    ]
-    OrderId,}
-
-    root  packet
-	Party 
-{ repeat
-    InLastpx79
-
-    {
-
-    char[
-
-12 ] 
-Px, int8 
-Tail ,  }
-,f32 
-count  ,  repeat 
-u8
-Note,Trade	,f64
-    venue 
-,@rightPad
-
-    (
-'\x00')char[
-    11
-	]
-tag7	,
-u16
-Px
-,
-    u32  Side2 @lengthOf(
-
-Body
-	)
-
-    , match 
-Px as
-Body
-
-{[ 48 , 188
-    ]
-	:Fill	, 190:Trade	,  160
-	:Quote
-
-    , 85
-
-    :
-
-    Cancel
-,
-	}
-	, }
-
-")).
-Eval vm_compute in ("<<<M1642>>>" ++ check (runes_of_ascii "
-root packet// packet A { u8 x, }
-		i8i8
-    { @rightPad
-( 	 // 50% %s
-		)
-	char[]	i64_  ,string
-
-f32a @calculatedFrom(
-    ""a\""b"" )
-    // @lengthOf(
-	// packet A { u8 x, }
-,
-
-@tag(
-255
-)
+    , }
+    , } ,  repeat	calculatedFrom {  repeat Packet { x
+    ,  } ,}
+, u8x{ metadata
 @calculatedFrom(
-""a	b"" ) @lengthOf(	u128	) match
-float
+    ""1"" )
+    // 50% %s
+    , repeat zchar[ // a // b
+65535 ]  Z9_ ,
+// " ++ [128512]%N ++ runes_of_ascii " emoji
+// a // b
+} , match As as  repeatCount { 65535 : roots ,
+""packet""
+: uint8x ,
+3 :
+A,
+""{,}"" :
+    leftPad,} , } , @calculatedFrom( // trailing space 
+""// no comment"" ) repeat stringy asx , char[] MetaDataX@lengthOf(
+// " ++ [128512]%N ++ runes_of_ascii " emoji
+// packet A { u8 x, }
+A ), @rightPad	('0' ) @leftPad
+    ( ' ' )	Z9_ @calculatedFrom( ""a\""b"" ) , match// packet A { u8 x, }
+o	as repeatCount {[3 , 0123456789 ]
+:
+    // c
+    string_ ,  4294967296 :
+    Logon , 7 :o	, } ,
+    }
+    packet body {} 	 ")).
+Eval vm_compute in ("<<<M258>>>" ++ check (runes_of_ascii "packet
+Packet { @rightPad (  )
+match calculatedFrom
+    as zchar {""abc"" : leftPad ,  0123456789:
+    BodyLength , ""// no comment"":	Packet } , @tag(
+    0123456789
+)
+    zchar[ 0]
+    _x @lengthOf(
+u128 ) ,
+    @calculatedFrom( ""`tick`""
+)	options1 {
+// a // b
+// trailing space 
+zchar @calculatedFrom(""CRC32""
+) ,
+i64
+A
+@lengthOf(string_ )// " ++ [128512]%N ++ runes_of_ascii " emoji
+`two words` , float
+// @lengthOf(
+// trailing space 
+@calculatedFrom(
+// c
+// trailing space 
+""{,}"" ) `crlf
+line` ,
+repeat char[ 00/// triple
+]
+_x , } ,
+    @leftPad( ' '
+) char[	255
+] options1 ,  @tag( 0123456789
+)repeat MetaDataX { //
+BodyLength { As , } , o `say ""hi""`
+    ,
+match asx //x
+as string_{ ""a	b"" :Logon ,// `tick` ""quote"" 'q'
+}, } ,	@rightPad	( // `tick` ""quote"" 'q'
+) match  o as T//
+{ 007
+    :
+    body	, 10 :o 10 : i8i8	, } , @rightPad ( '0'	)@rightPad (  '\x00' )
+    @leftPad ( '\x00' ) int8 tag `" ++ [28040; 24687; 31867; 22411]%N ++ runes_of_ascii "`
+, i64 falsey, @lengthOf( u8x )
+    repeat Packet	{ char[] x_y_z , repeat
+    f32 Packet ,crc @lengthOf( Foo )// a // b
+, } // 50% %s
+,//	t
+@calculatedFrom(	""{,}"" )
+    // a // b
+    @lengthOf(metadata ) @lengthOf( i8i8  ) // `tick` ""quote"" 'q'
+int64	options1 @calculatedFrom(""CRC32"" /// triple
+)	`say ""hi""`
+    ,
+    }
+")).
+Eval vm_compute in ("<<<M1471>>>" ++ check (runes_of_ascii "options {
+    packetx = 42;
+}
 
+root packet falsey {
+    @tag(1)
+    crc {
+        repeat char[007] charz `it's`,
+        repeat u8 len `
+                `,
+        crc trueish,
+    },
+    match float as string_ {
+        ""x y"" : zchar,
+        """ ++ [128512]%N ++ runes_of_ascii """ : string_,
+        ""CRC32"" : options1,
+        [""1""] : crc,
+        ""packet"" : options1,
+        [
+            42, ""a	b"", """ ++ [233]%N ++ runes_of_ascii "t" ++ [233]%N ++ runes_of_ascii """, ""abc"", 0123456789,
+            ""{,}"", 00, """ ++ [233]%N ++ runes_of_ascii "t" ++ [233]%N ++ runes_of_ascii """
+        ] : asx,
+    },
+    repeat f64 charz,
+    @tag(10)
+    repeat charz Logon,
+    @lengthOf(u8x)
+    @calculatedFrom(""a\""b"")
+    @rightPad(' ')
+    u8 a1 `u8 x,`,
+}
+
+packet falsey {
+    repeat char[] zchar,
+    @tag(255)
+    @calculatedFrom(""`tick`"")
+    char[] asx `say ""hi""`,
+    u8 As `u8 x,`,// 50% %s
+    zchar[00] uint8x @lengthOf(zchar),
+    char[255] uint8x,
+    Pad @lengthOf(_x) `" ++ [233]%N ++ runes_of_ascii "`,
+    _x,
+    @rightPad(' ')
+    uint16 BodyLength,
+    @lengthOf(int)
+    metadata tag,
+    int64 string_ `
+        `,
+}
+
+root packet o {
+}
+
+options {
+}")).
+Eval vm_compute in ("<<<M1878>>>" ++ check (runes_of_ascii "
+MetaData 
+BodyLength
+
+    {
+}packet
+
+x_y_z {	@lengthOf(
+	roots
+    )
+
+A{ // " ++ [128512]%N ++ runes_of_ascii " emoji
+	repeat	zchar[0123456789]
+Z9_ `a\`
+
+,
+    }	, }
+options 	 // packet A { u8 x, }
+{
+Pad
+=	""x y""
+;	// trailing space 
+
+trueish  = 
+true
+
+    body
+	=	3
+; 
+matchKey
+
+=
+true //x
+  ;
+    i64_	=
+	char[]
+;
+} packet
+	Packet	{
+
+    char[] 
+  // " ++ [128512]%N ++ runes_of_ascii " emoji
+  // `tick` ""quote"" 'q'
+
+  float
+
+    @calculatedFrom(""`tick`"") ,
+
+char[] charz @calculatedFrom(""abc"")  ,
+    match As
+
+    as 
+	// packet A { u8 x, }
+      asx// @lengthOf(
+    {
+
+    [
+    """ ++ [28040; 24687]%N ++ runes_of_ascii """
+, ""`tick`""
+,
+""{,}""
+,
+	""{,}""	, ""a	b""
+
+    // " ++ [27880; 37322]%N ++ runes_of_ascii "
+
+,
+1 ,
+""\" ++ [233]%N ++ runes_of_ascii """ 
+]	:
+
+rootA
+, 255  :asx
+
+42 
+:
+a1
+
+    ,42 :x_y_z""""
+    :msg_type ,
+    7 
+:
+    f32a, }, @leftPad 
+( '0' ) repeatCount crc
+    `// not a comment`,
+	@lengthOf(
+    MetaDataX 
+) 
+float64 falsey@calculatedFrom(
+	""\" ++ [233]%N ++ runes_of_ascii """
+
+) 
+`" ++ [233]%N ++ runes_of_ascii "`
+,
+
+    }
+")).
+Eval vm_compute in ("<<<M242>>>" ++ check (runes_of_ascii "/// triple
+packet
+    falsey
+{ } packet Logon { @tag( // @lengthOf(
+1 ) // c
+body a1 ,repeat BodyLength,repeat Foo
+    { match
+rootA as x { [3 ]
+    :
+    //
+    i8i8 }
+    , match charz as // a // b
+charz {007	: Packet , [ ""// no comment"" ] // trailing space 
+:/// triple
+A
+    ,
+    [ 10 ]
+: float
+,
+[ ""`tick`"" , 10 ]
+:
+    int
+,  } ,
+    }
+    ,// " ++ [27880; 37322]%N ++ runes_of_ascii "
+repeat u8x , asx{int32 Packet
+    @calculatedFrom(
+// 50% %s
+// a // b
+""// no comment""),},
+    @lengthOf( leftPad ) int8 float
+//
+// @lengthOf(
+@calculatedFrom( ""CRC32"" ), lengthOf// packet A { u8 x, }
+{ char[65535] string_ @calculatedFrom( """") // a // b
+,} ,len @calculatedFrom( """ ++ [233]%N ++ runes_of_ascii "t" ++ [233]%N ++ runes_of_ascii """	),	@lengthOf( As)
+char[ 1 ]
+BodyLength// " ++ [27880; 37322]%N ++ runes_of_ascii "
+,
+    } // a // b")).
+Eval vm_compute in ("<<<M78>>>" ++ check (runes_of_ascii "root packet
+crc{	MetaDataX @calculatedFrom(
+// " ++ [128512]%N ++ runes_of_ascii " emoji
+//
+""// no comment"" ), // " ++ [27880; 37322]%N ++ runes_of_ascii "
+@calculatedFrom("""" )
+    // trailing space 
+    len metadata// @lengthOf(
+,@tag( 0 )
+// `tick` ""quote"" 'q'
+// c
+char As `doc`
+,@lengthOf(// `tick` ""quote"" 'q'
+crc
+// c
+//	t
+)repeat
+    leftPad
+    // a // b
+    { repeat chars
+    u8x`// not a comment` ,
+uint8x{ repeat char[
+    10 ] crc,options1 ,},
+// " ++ [128512]%N ++ runes_of_ascii " emoji
+// trailing space 
+match  leftPad
     as
-metadata
-    {""\" ++ [233]%N ++ runes_of_ascii """
+Packet{ ""// no comment"": chars , [42 ,
+0 ]
+: a1
+    // c
+    ""\n"" : len // `tick` ""quote"" 'q'
+,3 : // " ++ [128512]%N ++ runes_of_ascii " emoji
+Header} , char[]
+options1
+@lengthOf( //	t
+f32a ) `
+` ,}
+    , // a // b
+}
+")).
+Eval vm_compute in ("<<<M59>>>" ++ check (runes_of_ascii "packet int{/// triple
+lengthOf , // " ++ [27880; 37322]%N ++ runes_of_ascii "
+match x_y_z
+as
+    trueish{  [
+""it's""
+, 0123456789 ] : i64_ , } , @tag( 255)
+@leftPad // " ++ [27880; 37322]%N ++ runes_of_ascii "
+(// packet A { u8 x, }
+'0' )
+options1@calculatedFrom(
+""1""
+    )
+`
+` , // @lengthOf(
+@leftPad ( '\x00') // packet A { u8 x, }
+len @lengthOf( rootA
+    ) , i64_ packetx ,
+    @tag( 42
+)	int32/// triple
+trueish ,
+i8 options1 `two words`,  @leftPad( '0'
+) char[
+1
+] calculatedFrom `tab	here`
+,	@lengthOf(o )
+    @tag(
+007 // 50% %s
+) u8
+_x	@calculatedFrom(
+    ""`tick`"") , repeatCount @lengthOf( MetaDataX)
+    , /// triple
+}
+")).
+Eval vm_compute in ("<<<M185>>>" ++ check (runes_of_ascii "packet metadata { Header// @lengthOf(
+u128 ,
+} packet zchar{/// triple
+@tag(
+4294967296 ) @lengthOf( a1 ) i8
+_x `crlf
+line`, @lengthOf( _x
+) match
+    x_y_z as
+    Packet
+    {0 : leftPad, 65535 : tag 00 :leftPad,  ""a\\"" : Packet ,  10 :
+    o,  [ ""CRC32""
+    ]
+    :
+    float // " ++ [128512]%N ++ runes_of_ascii " emoji
+,
+}
+    , match stringy
+as calculatedFrom {""`tick`"" :rootA  , ""`tick`"" : asx
+// packet A { u8 x, }
+/// triple
+,3 :
+u128 ,
+} ,@lengthOf(
+msg_type
+)
+@tag(
+10 )// 50% %s
+repeatCount@lengthOf(string_
+    ) `a\` , }
+")).
+Eval vm_compute in ("<<<M1923>>>" ++ check (runes_of_ascii "options { LittleEndian
 
-    :  x_y_z	, 10
-: 
+    =
 
-// `tick` ""quote"" 'q'
-// `tick` ""quote"" 'q'
-	Packet
+false  ; StringPrefixLenType	=
+    u16;	FixedStringPadFromLeft=  true  ;FixedStringPadChar 
+= '0' ;
+
+}  packet	Fill
+	{ }root
+packet Order {
+	repeat
+Fill, char[] clOrdID
+	,
+    @rightPad(  '\x00'
+
+    ) char[
+
+    4
+    ] lastPx ,char[]
+
+OrderId ,
+
+int8	tag7
+, 
+u8
+
+    f1
+, u16 count  @lengthOf(
+
+    Body)
+
+    ,match
+f1 as
+
+Body {
+    [  159
+,	49 ]:
+
+    Fill
 	,
 
-    """"
-	:
-asx ,
-	} ,@lengthOf(asx
-	) 	 /// triple
-match matchKey 
-// trailing space 
-		// c
-as
-Foo{ 
-""// no comment""
+}
 
-    :	trueish	42 : len,
-42:
+    ,u16 
+Tail@calculatedFrom(
 
-    options1
-
-    ""x y""  :
-	x_y_z
-	""CRC32""
-
-    // a // b
-  // packet A { u8 x, }
-:
-	zchar
-0123456789 
-:pack , }
-
-    , }
-MetaData
-crc{
-string
-    repeatCount ,  //	t
-      char[]
-a1	, 
-// 50% %s
-      // `tick` ""quote"" 'q'
-
-char 
-msg_type	, pack rootA  ,
-    u64
-Pad ,}")).
-Eval vm_compute in ("<<<M1398>>>" ++ check (runes_of_ascii "options { // c1
-LittleEndian
-    // c2
-=
-    // c3
-true // c4a
-  // c4b
-; // c5
-} // c6a
-  // c6b
-packet Sub // c8
-{ // c9
-u8 a // c11
-,
-    // c12
-u16 SubSum // c14
-@calculatedFrom( // c15a
-  // c15b
-""CRC16""
-    // c16
-) // c17a
-  // c17b
-,
-    // c18
-} // c19
-root // c20a
-  // c20b
-packet // c21a
-  // c21b
-Frame
-    // c22
-{
-    // c23
-u16 MsgType // c25a
-  // c25b
-, u16 // c27
-BodyLen @lengthOf( Body ) // c31a
-  // c31b
-, Sub Body // c34a
-  // c34b
-, // c35a
-  // c35b
-string // c36
-note
-    // c37
-, // c38a
-  // c38b
-u16
-    // c39
-Checksum
-    // c40
-@calculatedFrom( // c41a
-  // c41b
-""CRC16"" // c42a
-  // c42b
-) // c43
-, u8 // c45
-tail
-    // c46
-,
-    // c47
-} // c48
+""CR\
+C32"")  ,
+}
 ")).
-Eval vm_compute in ("<<<M238>>>" ++ check (runes_of_ascii "packet _x{zchar[ 65535 ]  metadata `crlf
-line` , @calculatedFrom( ""CRC32"") Header
-    `doc` //x
+Eval vm_compute in ("<<<M1413>>>" ++ check (runes_of_ascii "  packet  NewOrder
+
+{
+
+    u32 qty, 
+}
+    packet 
+Cancel {
+
+u64 id ,
+	}	packet
+Business
+
+    {
+u8  Kind , match
+	Kind	as  Detail
+	{1
+
+    :NewOrder
 ,
-    match f32a as msg_type{
-    [
-    ""\n"" ] // `tick` ""quote"" 'q'
-:	charz
-0123456789
-:pack , [ ""packet""	, """" , ""`tick`""// " ++ [128512]%N ++ runes_of_ascii " emoji
-, // `tick` ""quote"" 'q'
-""CRC32"" , ""\n""
-    // @lengthOf(
-    , ""it's""
-, ""it's""
-,
-// @lengthOf(
-//x
-4294967296 ] : charz /// triple
-42
-:// @lengthOf(
-leftPad ,
-[
-    // 50% %s
-    255 ,7,  ""packet""
-    ,
-""{,}"" , ""\" ++ [233]%N ++ runes_of_ascii """
-, ""1"" ,
-    ""1""] // " ++ [27880; 37322]%N ++ runes_of_ascii "
-:	msg_type, [ """ ++ [128512]%N ++ runes_of_ascii """
-]: //
-i64_ }
-,
-repeat
-u8x
-    body , } MetaData
-roots {	u8x packetx `two words` , // trailing space 
-}")).
-Eval vm_compute in ("<<<M1335>>>" ++ check (runes_of_ascii "// top
-root // c0
-packet // c1
-Frame // c2a
-  // c2b
-{ // c3
-u8 K
-    // c5
-, Logon
-    // c7
-first // c8a
-  // c8b
-, // c9a
-  // c9b
-match K as
-    // c12
-Body // c13a
-  // c13b
-{ 1 // c15a
-  // c15b
-:
-    // c16
-Logon ,
-    // c18
+
 2
-    // c19
-:
-    // c20
-Logout // c21
+
+: Cancel  ,
+    },
+    } packet 
+TcpFrame
+    {	u8
+T
 ,
-    // c22
-} // c23
-, // c24a
-  // c24b
-}
-    // c25
-packet // c26a
-  // c26b
-Logon // c27a
-  // c27b
-{ string // c29
-user
-    // c30
-,
-    // c31
-} // c32
-packet
-    // c33
-Logout
-    // c34
-{ // c35a
-  // c35b
-u16
-    // c36
-reason // c37
-,
-    // c38
-} ")).
-Eval vm_compute in ("<<<M239>>>" ++ check (runes_of_ascii "MetaData pack  {float32 Header
-    `two words` //
-, rootA charz `" ++ [233]%N ++ runes_of_ascii "`
-, //
-int32 falsey`doc`, }packet matchKey { i64_ { float64 tag
-@lengthOf( msg_type) , u8x f32a,
-    Pad
+
+    match	T
+	as
+
+    Body
+{	1
+	:
+
+Business	, 
+} ,  } packet
+UdpFrame{ u8
+U ,
+    match	U as Body
 {
-char[ 10 ]
-// trailing space 
-// @lengthOf(
-f32a `// not a comment`,},
-int {repeat
-    packetx { char[] T @calculatedFrom( ""it's"" )
-, } , } , } , char[ 255
-] trueish@lengthOf(calculatedFrom// " ++ [128512]%N ++ runes_of_ascii " emoji
-) //	t
-, repeat rootA string_ ,
-}
-packet x_y_z	{  @lengthOf( i64_
-    )BodyLength `" ++ [233]%N ++ runes_of_ascii "`
-// @lengthOf(
-//	t
-, }")).
-Eval vm_compute in ("<<<M1132>>>" ++ check (runes_of_ascii "// top
-packet // c0
-float // c1
-{ // c2
-@rightPad // c3
-( // c4
-) // c5
-rootA // c6
-@lengthOf( // c7
-trueish // c8
-) // c9
-, // c10
-stringy // c11
-@lengthOf( // c12
-matchKey // c13
-) // c14
-, // c15
-char[ // c16
-4294967296 // c17
-] // c18
-pack // c19
-@lengthOf( // c20
-uint8x // c21
-) // c22
-, // c23
-} // c24
-root // c25
-packet // c26
-trueish // c27
-{ // c28
-repeat // c29
-uint64 // c30
-u128 // c31
-`say ""hi""` // c32
-, // c33
-} // c34
-")).
-Eval vm_compute in ("<<<M1340>>>" ++ check (runes_of_ascii "packet Frame {
-    u8 HK,
-    u8 BK,
-    u8 TK,
-    match HK as Hdr {
-        1 : HdrA,
-        2 : HdrB,
+	1 : 
+Business
+	, } ,
+Business	extra,}root
+	packet	Wire {
+
+    TcpFrame
+
+    ,UdpFrame
+
+    ,  } ")).
+Eval vm_compute in ("<<<M1712>>>" ++ check (runes_of_ascii "packet _x {
+    calculatedFrom @lengthOf(roots) `it's`,
+    match metadata as BodyLength {
+        [
+            10, 10, ""a\""b"", """", ""\n"",
+            ""a\\"", 4294967296
+        ] : u,
     },
-    match BK as Body {
-        1 : BodyA,
-        2 : BodyB,
-    },
-    match TK as Trl {
-        1 : TrlA,
-    },
-}
-packet HdrA {
-    u8 a,
-}
-packet HdrB {
-    u16 b,
-}
-packet BodyA {
-    u32 c,
-}
-packet BodyB {
-    u64 d,
-}
-packet TrlA {
-    u8 e,
-}
-root packet Msg {
-    Frame,
-    u8 x,
-}
-")).
-Eval vm_compute in ("<<<M195>>>" ++ check (runes_of_ascii "root // 50% %s
-packet u128 {
-    a1
-    @calculatedFrom(""a\""b"" ) , }
-root packet pack { BodyLength @calculatedFrom(
-    ""{,}""
-)
-    `// not a comment` ,//x
-uint8x , i64 rootA, @lengthOf( BodyLength )	string
-zchar
-    , // " ++ [128512]%N ++ runes_of_ascii " emoji
-} packet _x	{ @tag( 7 ) match // @lengthOf(
-trueish
-    as packetx { 10
-: Header ,7 : trueish ""a\""b"" :
-// @lengthOf(
-// " ++ [27880; 37322]%N ++ runes_of_ascii "
-pack ,}, }")).
-Eval vm_compute in ("<<<M1547>>>" ++ check (runes_of_ascii "MetaData o {
-    MetaDataX As `crlf
-    line`,
-    string_ T,
-    zchar[1] Header,//	t
+    repeat i64_ Packet `{ , }`,// packet A { u8 x, }
+    @tag(65535)
+    char[] float `crlf
+        line`,
+    char[7] x @calculatedFrom(""{,}""),
+    @leftPad()
+    u64 stringy @calculatedFrom(""\" ++ [233]%N ++ runes_of_ascii """),
 }
 
-packet packetx {
-    // " ++ [128512]%N ++ runes_of_ascii " emoji
-    repeat char[10] crc `a\`,
-    @tag(42)
-    repeat char[] asx `// not a comment`,
-    zchar[007] len @lengthOf(u) `a\`,
-    @leftPad( '\x00' )
-    @tag(3)
-    @calculatedFrom(""a\""b"")
-    char[10] As `
+packet A {
+}")).
+Eval vm_compute in ("<<<M1715>>>" ++ check (runes_of_ascii "MetaData chars {
+    char[] f32a `" ++ [28040; 24687; 31867; 22411]%N ++ runes_of_ascii "`,
+    zchar[255] calculatedFrom,// @lengthOf(
+    a1 metadata,
+    // a // b
+    u i64_ `
     `,
-}")).
-Eval vm_compute in ("<<<M1832>>>" ++ check (runes_of_ascii "
-packet
-roots { pack
-
-``	,  //	t
-	T@lengthOf(
-tag
-), x
-	{
-match len
-    as packetx  {[10  ]
-
-:	// c
-rootA
-,}
-	,  repeat
-string leftPad `
-` , //	t
-char[7 
-] Packet
-@calculatedFrom(""a	b"" )  ,char[]
-
-uint8x
-``
-    // trailing space 
-  // a // b
-,
+    A asx `100% of %d`,
 }
 
-    , 
-uint16
-
-    leftPad
-    ,
-}")).
-Eval vm_compute in ("<<<M1572>>>" ++ check (runes_of_ascii "
-
-  options {
-
-crc
-
-='\x00'
-    ;  uint8x 
-=	// " ++ [27880; 37322]%N ++ runes_of_ascii "
-  ""x y"" ; 
-a1
-    =
-    """ ++ [28040; 24687]%N ++ runes_of_ascii """ 
-o
-    = '\x00' 
-  // trailing space 
-	// trailing space 
-charz
-    = 
-4294967296	//
-	}  options { 
-
-// " ++ [128512]%N ++ runes_of_ascii " emoji
-    stringy 
-        // `tick` ""quote"" 'q'
-
-// 50% %s
-    =
-    '0'
-
-; 
-}")).
-Eval vm_compute in ("<<<M523>>>" ++ check (runes_of_ascii "packet
-    asx { @calculatedFrom(
-""""  ) @tag( 255 )repeat
-// packet A { u8 x, }
-// trailing space 
-int16 u8x
-,
-@tag(
-    //
-    007 )
-    @tag( 0
-    /// triple
-    ) @tag( 1) u
-    @lengthOf( T ),
 // `tick` ""quote"" 'q'
-//x
-@lengthOf( // " ++ [128512]%N ++ runes_of_ascii " emoji")).
-Eval vm_compute in ("<<<M1402>>>" ++ check (runes_of_ascii "packet Sub
-    { u8
+MetaData int {
+    char[] As `// not a comment`,
+}
 
-    a 
-,@calculatedFrom( ""CRC16"" 
-) 
-i64
+MetaData Header {
+    int16 charz,
+    uint64 u8x,
+    string zchar,
+    float64 options1 `// not a comment`,
+    uint64 stringy,
+}")).
+Eval vm_compute in ("<<<M97>>>" ++ check (runes_of_ascii "packet o { @rightPad ( '\x00') @calculatedFrom(
+    ""a\""b""
+) @rightPad ( '0') char[// trailing space 
+255] zchar
+@calculatedFrom(
+""\" ++ [233]%N ++ runes_of_ascii """ ) ,
+char[
+// 50% %s
+//	t
+10 /// triple
+]
+    _x  `" ++ [28040; 24687; 31867; 22411]%N ++ runes_of_ascii "`,
+}	options {	}options{ Pad='0' ;} packet
+i64_ { repeat string // " ++ [128512]%N ++ runes_of_ascii " emoji
+zchar , @calculatedFrom( """"
+)	@lengthOf( Packet
+)
+    f32a
+// c
+// " ++ [27880; 37322]%N ++ runes_of_ascii "
+,}
+")).
+Eval vm_compute in ("<<<M1559>>>" ++ check (runes_of_ascii "  options
 
-SubSum ,}
+    {  falsey=
 
-root	packet Frame
+    42 } options	{ A
+=
+	0123456789
+; options1 =
+    ""// no comment""
+o
+    =  ""// no comment"" 
+; 
+u8x	=
 
-{
+    // 50% %s
+  // 50% %s
+	true 
+;  }
 
-u16 MsgType
-	,u16
-BodyLen @lengthOf(	Body	),	Sub 
-Body
-    , string note
+root
+	packet Z9_ // " ++ [128512]%N ++ runes_of_ascii " emoji
+  { 
+}
+	root  packet o { 
+@tag(65535 )	repeat
+    f32
+    Logon
+`100% of %d` 
+,
 
-    ,  @calculatedFrom(
-    ""CRC16""
+    }
+")).
+Eval vm_compute in ("<<<M1906>>>" ++ check (runes_of_ascii "
+options	{
+i8i8
+    = ""\n""
+Header
+
+=	""x y""; 	 /// triple
+
+}root
+
+packet
+
+    A	{
+    match
+charz
+    as T{ 
+
+//
+	0
+:  // trailing space 
+  options1 // `tick` ""quote"" 'q'
+  } 
+,  } packet
+	float  /// triple
+	{ @rightPad
+
+(
+
 )
 
-i64 Checksum  ,u8 tail  ,}
+    repeat metadata 
+`u8 x,`,  }
 ")).
-Eval vm_compute in ("<<<M541>>>" ++ check (runes_of_ascii "packet
-    asx { @calculatedFrom(
-""""  ) @tag( 255 )repeat
-// packet A { u8 x, }
-// trailing space 
-int16 u8x
-,
-@tag(
-    //
-    007@ )
-    @tag( 0
-    /// triple
-    ) @tag( 1) u
-    @lengthOf( T ),
-// `tick` ""quote"" 'q'
-//x
-} // " ++ [128512]%N ++ runes_of_ascii " emoji")).
-Eval vm_compute in ("<<<M508>>>" ++ check (runes_of_ascii "packet
-    asx { @calculatedFrom(
-""""  ) @tag( 255 )repeat
-// packet A { u8 x, }
-// trailing space 
-int16 u8x
-,
-@tag(
-    //
-    007 )
-    @tag( 0
-    /// triple
-    ) @tag( 1) u
-    @lengthOf( ) T,
-// `tick` ""quote"" 'q'
-//x
-} // " ++ [128512]%N ++ runes_of_ascii " emoji")).
-Eval vm_compute in ("<<<M416>>>" ++ check (runes_of_ascii "packet
-    asx { @calculatedFrom(
-""""  )  255 )repeat
-// packet A { u8 x, }
-// trailing space 
-int16 u8x
-,
-@tag(
-    //
-    007 )
-    @tag( 0
-    /// triple
-    ) @tag( 1) u
-    @lengthOf( T ),
-// `tick` ""quote"" 'q'
-//x
-} // " ++ [128512]%N ++ runes_of_ascii " emoji")).
-Eval vm_compute in ("<<<M56>>>" ++ check (runes_of_ascii "MetaData repeatCount
-    { u8 x
-`// not a comment`//x
-,// @lengthOf(
-char[] /// triple
-packetx	,  u8 float ,	float32 As`two words`, Z9_ //	t
-crc `" ++ [233]%N ++ runes_of_ascii "` ,
-    }MetaData int { matchKey int ,leftPad
-metadata `100% of %d`
-,}
-
-")).
-Eval vm_compute in ("<<<M284>>>" ++ check (runes_of_ascii "packet roots {
-f64	u @calculatedFrom( ""a\\"" ) , @tag( 1	) zchar[ 0
-    ]	stringy @lengthOf( u ) //	t
-,} MetaData
-    body
-    // trailing space 
-    {	BodyLength tag	,
-u32 MetaDataX , // @lengthOf(
-}")).
-Eval vm_compute in ("<<<M337>>>" ++ check (runes_of_ascii "
-MetaData x_y_z	{ f32a tag, crc
-    chars	`doc`, calculatedFrom Packet `crlf
-line` , repeatCount
-int ,string
-    matchKey , charz trueish `" ++ [28040; 24687; 31867; 22411]%N ++ runes_of_ascii "`  , }packet Pad // trailing space 
-{
-}")).
-Eval vm_compute in ("<<<M714>>>" ++ check (runes_of_ascii "packet
-crc
-int64 repeat  Foo A  `u8 x,` ,	@lengthOf( uint8x ) string
-matchKey @lengthOf( stringy ) `a\`
-,
+Eval vm_compute in ("<<<M99>>>" ++ check (runes_of_ascii "packet stringy	{ //x
+repeat char[ 0123456789
     // c
+    ] trueish ,matchKey `100% of %d` ,
+    } options { x_y_z = //x
+false /// triple
+;// " ++ [128512]%N ++ runes_of_ascii " emoji
+Z9_ = 4294967296 chars =""packet"" // packet A { u8 x, }
+; Packet
+= ""it's"" ;// trailing space 
+}")).
+Eval vm_compute in ("<<<M447>>>" ++ check (runes_of_ascii "packet
+    asx { @calculatedFrom(
+""""  ) @tag( 255 )repeat
+// packet A { u8 x, }
+// trailing space 
+int16 u8x
+, ,
+@tag(
+    //
+    007 )
+    @tag( 0
+    /// triple
+    ) @tag( 1) u
+    @lengthOf( T ),
+// `tick` ""quote"" 'q'
+//x
+} // " ++ [128512]%N ++ runes_of_ascii " emoji")).
+Eval vm_compute in ("<<<M408>>>" ++ check (runes_of_ascii "packet
+    asx { @calculatedFrom(
+)  """" @tag( 255 )repeat
+// packet A { u8 x, }
+// trailing space 
+int16 u8x
+,
+@tag(
+    //
+    007 )
+    @tag( 0
+    /// triple
+    ) @tag( 1) u
+    @lengthOf( T ),
+// `tick` ""quote"" 'q'
+//x
+} // " ++ [128512]%N ++ runes_of_ascii " emoji")).
+Eval vm_compute in ("<<<M1475>>>" ++ check (runes_of_ascii "
+options{
+FixedStringPadChar
+    =
+
+'0'
+
+    ; }	packet
+    Q	{ 
+zchar[4]  z, 
+@rightPad (
+
+    '\x00') 
+char[
+    3 
+]
+    n ,
+char[ 5
+
+    ]d,}
+    root packet 
+R
+{ Q ,zchar[	8
+]
+top
+	, 
+repeat zchar[
+2
+]
+zs
+
+    ,
+
     }
-MetaData chars{
-leftPad
-    //	t
-    crc
-`" ++ [233]%N ++ runes_of_ascii "`
-,}")).
-Eval vm_compute in ("<<<M557>>>" ++ check (runes_of_ascii "MetaData u
-    { { } MetaData o
+")).
+Eval vm_compute in ("<<<M387>>>" ++ check (runes_of_ascii "
+    asx { @calculatedFrom(
+""""  ) @tag( 255 )repeat
+// packet A { u8 x, }
+// trailing space 
+int16 u8x
+,
+@tag(
+    //
+    007 )
+    @tag( 0
+    /// triple
+    ) @tag( 1) u
+    @lengthOf( T ),
+// `tick` ""quote"" 'q'
+//x
+} // " ++ [128512]%N ++ runes_of_ascii " emoji")).
+Eval vm_compute in ("<<<M262>>>" ++ check (runes_of_ascii "root  packet int {  match u128 as BodyLength
+    { 00
+    :crc //x
+0123456789 : BodyLength [
+10
+,4294967296 ,4294967296 , 7 ] :
+u128 ""a	b""
+:len
+,42: metadata
+, 0 : Foo , }
+, zchar[ 42 ] x	`say ""hi""` // c
+,
+}
+")).
+Eval vm_compute in ("<<<M1317>>>" ++ check (runes_of_ascii "// top
+packet
+    // c0
+orderItem { // c2a
+  // c2b
+u8 // c3
+a , }
+    // c6
+root
+    // c7
+packet // c8a
+  // c8b
+newOrder { // c10
+orderItem ,
+    // c12
+u8 x // c14a
+  // c14b
+, // c15
+} ")).
+Eval vm_compute in ("<<<M602>>>" ++ check (runes_of_ascii "MetaData u
+    { } MetaData o
 { float uint8x
-`100% of %d` ,repeatCount u8x, string_ leftPad
+`100% of %d` ,repeatCount repeatCount u8x, string_ leftPad
 , i32
     Foo , int64 x `two words` , calculatedFrom
 stringy `a\` ,
 }
 ")).
-Eval vm_compute in ("<<<M1502>>>" ++ check (runes_of_ascii "
-
-  // top
-  root 
-
-// c0
-	packet
-
-    P	// c2
-	{	// c3
-  repeat// c4a
-    // c4b
-    char
-// c5
-  cs , 
-// c7
-
-	u8 // c8
-
-x// c9
-
-,	// c10
-		}	// c11a
-// c11b
-")).
-Eval vm_compute in ("<<<M668>>>" ++ check (runes_of_ascii "MetaData u
-    { } MetaData o
-{ float uint8x
-`100% of %d` ,repeatCount u8x, string_ leftPad
-, i32
-    Foo , int64 x `two words` , stringy
-calculatedFrom `a\` ,
-}
-")).
-Eval vm_compute in ("<<<M689>>>" ++ check (runes_of_ascii "MetaData u
+Eval vm_compute in ("<<<M684>>>" ++ check (runes_of_ascii "MetaData u
     { } MetaData o
 { float uint8x
 `100% of %d` ,repeatCount u8x, string_ leftPad
 , i32
     Foo , int64 x `two words` , calculatedFrom
-stringy `a\` ,")).
-Eval vm_compute in ("<<<M1828>>>" ++ check (runes_of_ascii "options {
-    Foo = true
-    len = '0';
-    metadata = u32;
-    repeatCount = 42
+stringy `a\` repeat
 }
-
-MetaData lengthOf {
-}
-
-options {
-    options1 = zchar[0123456789]
-}// " ++ [27880; 37322]%N)).
-Eval vm_compute in ("<<<M1938>>>" ++ check (runes_of_ascii "
-options {
-
-    }
-options
-{
-
-MetaDataX 
-=  char ; }  MetaData
-    Pad	{
-i8	metadata
-	,
-
-    string
-    stringy
-,int8 	 // c
-  	As`{ , }` ,
-}")).
-Eval vm_compute in ("<<<M470>>>" ++ check (runes_of_ascii "packet
-    asx { @calculatedFrom(
-""""  ) @tag( 255 )repeat
-// packet A { u8 x, }
-// trailing space 
-int16 u8x
-,
-@tag(
-    //
-    007 )")).
-Eval vm_compute in ("<<<M1669>>>" ++ check (runes_of_ascii "  packet 
-u8x{@leftPad
-(//	t
-'0'//x
-	)	uint8x  lengthOf `line1
-line2`  
-  // 50% %s
-	, 
-} packet	msg_type {}
-MetaData u 
-{
-	}
 ")).
-Eval vm_compute in ("<<<M1330>>>" ++ check (runes_of_ascii "  packet FooBar
+Eval vm_compute in ("<<<M687>>>" ++ check (runes_of_ascii "MetaData u
+    { } MetaData o
+{ float uint8x
+`100% of %d` ,repeatCount u8x, string_ leftPad
+, i32
+    Foo , int64 x `two words` , calculatedFrom
+stringy `a\` ,
+} }
+")).
+Eval vm_compute in ("<<<M593>>>" ++ check (runes_of_ascii "MetaData u
+    { } MetaData o
+{ float uint8x
+, `100% of %d`repeatCount u8x, string_ leftPad
+, i32
+    Foo , int64 x `two words` , calculatedFrom
+stringy `a\` ,
+}
+")).
+Eval vm_compute in ("<<<M624>>>" ++ check (runes_of_ascii "MetaData u
+    { } MetaData o
+{ float uint8x
+`100% of %d` ,repeatCount u8x, string_ uint64
+, i32
+    Foo , int64 x `two words` , calculatedFrom
+stringy `a\` ,
+}
+")).
+Eval vm_compute in ("<<<M685>>>" ++ check (runes_of_ascii "MetaData u
+    { } MetaData o
+{ float uint8x
+`100% of %d` ,repeatCount u8x, string_ leftPad
+, i32
+    Foo , int64 x `two words` , calculatedFrom
+stringy `a\`")).
+Eval vm_compute in ("<<<M211>>>" ++ check (runes_of_ascii "
+MetaData float { }packet
+    x
     {
-	u8
-a,
-
-}
-
-    packet  foo_bar
-{
-	u16 b,
-}
-
-    root
-    packet 
-R
-
-{ FooBar
-,
-
-foo_bar
-	, }
+// 50% %s
+// a // b
+float@calculatedFrom( ""\" ++ [233]%N ++ runes_of_ascii """
+) , uint32 body ,} options { repeatCount
+= float32 } // @lengthOf(")).
+Eval vm_compute in ("<<<M225>>>" ++ check (runes_of_ascii "options {  i8i8= uint8 pack =false T  = false ; msg_type
+// `tick` ""quote"" 'q'
+// c
+= 0 falsey = char[ 42 ]// trailing space 
+; }
+// " ++ [128512]%N ++ runes_of_ascii " emoji
 ")).
-Eval vm_compute in ("<<<M1452>>>" ++ check (runes_of_ascii "packet A {
-    u16 len @lengthOf(body) `x
-    `,
-    u32 crc @calculatedFrom(""CRC32"") `x
-    `,
-    string body,
-}")).
-Eval vm_compute in ("<<<M1229>>>" ++ check (runes_of_ascii "options { } options { MetaDataX = char ; } MetaData Pad { i8 // c
-metadata , string stringy , int8 As `{ , }` , }")).
-Eval vm_compute in ("<<<M941>>>" ++ check (runes_of_ascii "packet A {
-    u16 len @lengthOf(body) `a
-
-b`,
-    u32 crc @calculatedFrom(""CRC32"") `a
-
-b`,
-    string body,
-}")).
-Eval vm_compute in ("<<<M895>>>" ++ check (runes_of_ascii "packet A {
-  match k as n {
-    [""a"", 22, ""c c"", 4, ""e"", 66, ""g"", 8, ""i"", 10, ""k""] : B,
-    2 : C
-  },
-}")).
-Eval vm_compute in ("<<<M177>>>" ++ check (runes_of_ascii "MetaData
-    matchKey
-    //x
-    {	i64 float `crlf
-line` ,//	t
-leftPad
-asx ,
-uint8x leftPad  ,}
-")).
-Eval vm_compute in ("<<<M1278>>>" ++ check (runes_of_ascii "packet B {
-    u8 a,
-    string s,
-}
-root packet P {
-    u16 L @lengthOf(B),
-    B,
-    u8 t,
-}
-")).
-Eval vm_compute in ("<<<M1469>>>" ++ check (runes_of_ascii "packet Foo {
-    float64 a1,
-    string Z9_ @lengthOf(Logon) `line1
-    line2`,
-}
-// " ++ [128512]%N ++ runes_of_ascii " emoji")).
-Eval vm_compute in ("<<<M1105>>>" ++ check (runes_of_ascii "packet A { match k as n // a
- { // b
- 1 // c
- : // d
- B // e
- , // f
- } // g
- , // h
- }")).
-Eval vm_compute in ("<<<M1433>>>" ++ check (runes_of_ascii "packet A {
+Eval vm_compute in ("<<<M1841>>>" ++ check (runes_of_ascii "packet A {
     match k as n {
-        [1, 22, ""c c"", 4] : B,
+        [
+            ""a"", 22, ""c c"", 4, ""e"",
+            66, ""g""
+        ] : B,
         2 : C,
     },
 }")).
-Eval vm_compute in ("<<<M1484>>>" ++ check (runes_of_ascii "
-packet A
+Eval vm_compute in ("<<<M1922>>>" ++ check (runes_of_ascii "
+
+  options
+{ charz
+    =
+	""a\\"" 
+    // trailing space 
+    rootA
+= 
+""packet"" ;	x
+	=
+
+""a	b""
+	;
+    // " ++ [27880; 37322]%N ++ runes_of_ascii "
+	rootA = string	}
+")).
+Eval vm_compute in ("<<<M1720>>>" ++ check (runes_of_ascii "
+packet	A  {match
+    k
+
+as	n
 
     {
 
-match
+[
+    ""a"" ,22 ,""c c""
+	,
+    4 , ""e""  , 66
+
+,  ""g""
+
+    ] : B
+2:	C }
+
+,
+
+}")).
+Eval vm_compute in ("<<<M1220>>>" ++ check (runes_of_ascii "options { } options { MetaDataX = char ;
+// c
+} MetaData Pad { i8 metadata , string stringy , int8 As `{ , }` , }")).
+Eval vm_compute in ("<<<M362>>>" ++ check (runes_of_ascii "options { }
+options {
+    _x=
+    ""`tick`""; matchKey
+=""it's"" ; options1= u16; stringy =	true }packet x_y_z{ }
+
+")).
+Eval vm_compute in ("<<<M1290>>>" ++ check (runes_of_ascii "options {
+    LittleEndian = true;
+}
+root packet P {
+    u16 a,
+    u32 Sum @calculatedFrom(""CR\
+C32""),
+}
+")).
+Eval vm_compute in ("<<<M1328>>>" ++ check (runes_of_ascii "packet FooBar {
+    u8 a,
+}
+packet foo_bar {
+    u16 b,
+}
+root packet R {
+    FooBar,
+    foo_bar,
+}
+")).
+Eval vm_compute in ("<<<M1626>>>" ++ check (runes_of_ascii "
+packet A{
+	Inner
+
+    {	match 
 k	as
 
-n
-	{ [ 1
-,22  ,
-007  ] :	B  ,	2  :	C
+n {
+	[
+	1
+
+    ,
+    22
+,	007
+
+,4 ] : B
+, 
 } ,
-    } ")).
-Eval vm_compute in ("<<<M1486>>>" ++ check (runes_of_ascii "packet
-chars  {
-    char[
-	007
-	]	float@calculatedFrom(
-    ""x y""
-	)
-	,}
-")).
-Eval vm_compute in ("<<<M290>>>" ++ check (runes_of_ascii "MetaData u8x
-{ uint8
-    T`" ++ [233]%N ++ runes_of_ascii "`
-    ,	i32 MetaDataX,float32
-    crc ,
-}
+
+} ,}
 
 ")).
-Eval vm_compute in ("<<<M862>>>" ++ check (runes_of_ascii "packet A { Inner { match k as n { [1,22,007,4,5,66,7,8] : B, }, }, }")).
-Eval vm_compute in ("<<<M782>>>" ++ check (runes_of_ascii "packet A {
+Eval vm_compute in ("<<<M140>>>" ++ check (runes_of_ascii "packet f32a
+{
+    @tag( 007	)
+    // " ++ [27880; 37322]%N ++ runes_of_ascii "
+    i8i8
+Logon , }  options {} packet
+stringy {} //")).
+Eval vm_compute in ("<<<M1531>>>" ++ check (runes_of_ascii "
+// `tick` ""quote"" 'q'
+  options 
+{ stringy 
+=
+	""\" ++ [233]%N ++ runes_of_ascii """float =  """ ++ [233]%N ++ runes_of_ascii "t" ++ [233]%N ++ runes_of_ascii """
+trueish
+
+= u8
+    } ")).
+Eval vm_compute in ("<<<M1313>>>" ++ check (runes_of_ascii "packet order_item {
+    u8 a,
+}
+root packet new_order {
+    order_item,
+    u8 x,
+}
+")).
+Eval vm_compute in ("<<<M829>>>" ++ check (runes_of_ascii "packet A {
   match k as n {
-    [""a"", 22] : B,
+    [1, ""bb"", 007, ""d"", 5, ""f""] : B
     2 : C
   },
 }")).
-Eval vm_compute in ("<<<M1681>>>" ++ check (runes_of_ascii "MetaData M {
-    u8 x `
-        x`,
-    T t `
-        x`,
+Eval vm_compute in ("<<<M1791>>>" ++ check (runes_of_ascii "packet A {
+    match k as n {
+        [""a"", 22] : B,
+        2 : C,
+    },
 }")).
-Eval vm_compute in ("<<<M1665>>>" ++ check (runes_of_ascii "
-MetaData
+Eval vm_compute in ("<<<M1570>>>" ++ check (runes_of_ascii "
 
-    //x
-    	// @lengthOf(
-    	i8i8 
-{}
+  root
 
-")).
-Eval vm_compute in ("<<<M925>>>" ++ check (runes_of_ascii "MetaData M {
-    u8 x `a
-b`,
-    T t `a
-b`,
-}")).
-Eval vm_compute in ("<<<M1917>>>" ++ check (runes_of_ascii "
-
-  MetaData
-	M { }	// c
     packet
-A 
-{} ")).
-Eval vm_compute in ("<<<M415>>>" ++ check (runes_of_ascii "packet
-    asx { @calculatedFrom(
-""""")).
-Eval vm_compute in ("<<<M30>>>" ++ check (runes_of_ascii "
-root packet Pad
+
+P {
+    repeat
+
+char
+cs
+,
+    u8
+
+    x ,
+}")).
+Eval vm_compute in ("<<<M799>>>" ++ check (runes_of_ascii "packet A {
+  match k as n {
+    [1, 22, 007, 4] : B
+    2 : C
+  },
+}")).
+Eval vm_compute in ("<<<M1268>>>" ++ check (runes_of_ascii "root packet
+    P
+
 {
-char[] i8i8 , }")).
-Eval vm_compute in ("<<<M1524>>>" ++ check (runes_of_ascii "packet A {
-    u8 x `d" ++ [8192]%N ++ runes_of_ascii "`,// c" ++ [8192]%N ++ runes_of_ascii "
-}")).
-Eval vm_compute in ("<<<M81>>>" ++ check (runes_of_ascii "options {} // trailing space ")).
-Eval vm_compute in ("<<<M749>>>" ++ check (runes_of_ascii "f64 char[ false u8 string")).
-Eval vm_compute in ("<<<M1674>>>" ++ check (runes_of_ascii "// c
-root packet a1 {
-}")).
-Eval vm_compute in ("<<<M1873>>>" ++ check (runes_of_ascii "
-packet	A {} // c" ++ [8202]%N ++ runes_of_ascii "
+
+    hdr  {
+
+u8 a
+	, }
+,  u8
+
+x
+    ,}
 ")).
-Eval vm_compute in ("<<<M1056>>>" ++ check (runes_of_ascii "// c" ++ [12]%N ++ runes_of_ascii "
-packet A {
-}")).
-Eval vm_compute in ("<<<M1073>>>" ++ check (runes_of_ascii "packet A {
-}// c" ++ [6158]%N)).
-Eval vm_compute in ("<<<M240>>>" ++ check (runes_of_ascii "/// triple
+Eval vm_compute in ("<<<M440>>>" ++ check (runes_of_ascii "packet
+    asx { @calculatedFrom(
+""""  ) @tag( 255 )repeat")).
+Eval vm_compute in ("<<<M1112>>>" ++ check (runes_of_ascii "packet A { repeat // a
+ B // b
+ b // c
+ `d` // e
+ , }")).
+Eval vm_compute in ("<<<M1861>>>" ++ check (runes_of_ascii "packet  A{
+
+repeat f64
+A
+	,
+}  // @lengthOf(
+")).
+Eval vm_compute in ("<<<M1563>>>" ++ check (runes_of_ascii "  packet
+A	{
+u8
+x `d" ++ [133]%N ++ runes_of_ascii "`
+
+    ,// c" ++ [133]%N ++ runes_of_ascii "
+
+	}")).
+Eval vm_compute in ("<<<M1297>>>" ++ check (runes_of_ascii "  root 
+packet 
+P 
+{
+	string
+	s,  }
 
 ")).
-Eval vm_compute in ("<<<M1054>>>" ++ check (runes_of_ascii "// c" ++ [12]%N)).
+Eval vm_compute in ("<<<M1111>>>" ++ check (runes_of_ascii "root // a
+ packet // b
+ A // c
+ { }")).
+Eval vm_compute in ("<<<M1405>>>" ++ check (runes_of_ascii "packet A {
+    repeat B b `d`,
+}")).
+Eval vm_compute in ("<<<M1052>>>" ++ check (runes_of_ascii "packet A {
+ u8 x `d" ++ [11]%N ++ runes_of_ascii "`, // c" ++ [11]%N ++ runes_of_ascii "
+}")).
+Eval vm_compute in ("<<<M213>>>" ++ check (runes_of_ascii "  MetaData Packet
+    { }
+")).
+Eval vm_compute in ("<<<M1147>>>" ++ check (runes_of_ascii "root packet a1 // c
+{ }")).
+Eval vm_compute in ("<<<M1427>>>" ++ check (runes_of_ascii "
+packet
+A{ 
+}// c x
+")).
+Eval vm_compute in ("<<<M1055>>>" ++ check (runes_of_ascii "packet A {
+}
+// c" ++ [12]%N)).
+Eval vm_compute in ("<<<M1063>>>" ++ check (runes_of_ascii "packet A {
+}// c" ++ [8203]%N)).
+Eval vm_compute in ("<<<M1627>>>" ++ check (runes_of_ascii "// @lengthOf(")).
+Eval vm_compute in ("<<<M1034>>>" ++ check (runes_of_ascii "// c" ++ [8233]%N)).
